@@ -15,17 +15,17 @@ FEAT=""
 grep -q "arbitrary" "$DEMO" && FEAT="--features arbitrary"
 cp "$DEMO" ssz/tests/demo.rs
 echo "== clean tree: demo must pass"
-cargo test --offline -q -p ethereum_ssz --test demo $FEAT > /tmp/confirm2_$ID.clean.log 2>&1; RC_CLEAN=$?
+cargo test --offline -q -p ethereum_ssz --test demo $FEAT > /tmp/confirm3_$ID.clean.log 2>&1; RC_CLEAN=$?
 echo "rc=$RC_CLEAN"
 git apply "$PATCH" || { echo "patch does not apply"; rm -f ssz/tests/demo.rs; exit 2; }
 echo "== patched tree: demo must fail"
-cargo test --offline -q -p ethereum_ssz --test demo $FEAT > /tmp/confirm2_$ID.patched.log 2>&1; RC_PATCHED=$?
+cargo test --offline -q -p ethereum_ssz --test demo $FEAT > /tmp/confirm3_$ID.patched.log 2>&1; RC_PATCHED=$?
 echo "rc=$RC_PATCHED"
 rm -f ssz/tests/demo.rs
 echo "== patched tree: existing suite must pass"
-cargo test --workspace --offline --no-fail-fast > /tmp/confirm2_$ID.suite.log 2>&1; RC_SUITE=$?
-PASSED=$(grep -E "^test result" /tmp/confirm2_$ID.suite.log | awk '{s+=$4} END {print s}')
-FAILED=$(grep -E "^test result" /tmp/confirm2_$ID.suite.log | awk '{s+=$6} END {print s}')
+cargo test --workspace --offline --no-fail-fast > /tmp/confirm3_$ID.suite.log 2>&1; RC_SUITE=$?
+PASSED=$(grep -E "^test result" /tmp/confirm3_$ID.suite.log | awk '{s+=$4} END {print s}')
+FAILED=$(grep -E "^test result" /tmp/confirm3_$ID.suite.log | awk '{s+=$6} END {print s}')
 echo "rc=$RC_SUITE passed=$PASSED failed=$FAILED"
 git checkout -q -- . ; git clean -fdq -e target
 if [ $RC_CLEAN -eq 0 ] && [ $RC_PATCHED -ne 0 ] && [ $RC_SUITE -eq 0 ] && [ "$FAILED" = "0" ]; then
@@ -41,5 +41,5 @@ json.dump(meta,open(f"/verif/seeded/{sys.argv[2]}/meta.json","w"),indent=1)
 PY
   echo "CONFIRMED $ID"
 else
-  echo "NOT CONFIRMED $ID"; tail -5 /tmp/confirm2_$ID.patched.log; exit 1
+  echo "NOT CONFIRMED $ID"; tail -5 /tmp/confirm3_$ID.patched.log; exit 1
 fi
